@@ -68,6 +68,13 @@ ExpectedState(s, e) ==
     LET k == ForkIdxAt(s, e) IN
     [fork |-> k, prev |-> IF k = 0 THEN 0 ELSE k - 1, cur |-> k, fepoch |-> IF k = 0 THEN 0 ELSE s[k]]
 
+(* get_domain(state, domain_type, epoch) (phase0 beacon-chain.md):
+     fork_version = state.fork.previous_version if epoch < state.fork.epoch else state.fork.current_version
+   x is a fork record [prev, cur, fepoch], m the message epoch; the result is the fork index whose version is used *)
+DomainVersion(x, m) == IF m < x.fepoch THEN x.prev ELSE x.cur
+
+MultiForkAt(sch, ep) == Cardinality({k \in 1..NForks : sch[k] = ep}) > 1
+
 (* ---------------- model: advance a chain epoch by epoch ---------------- *)
 VARIABLES s, e, st
 
@@ -83,6 +90,19 @@ Next == /\ e < MaxEpoch
 \* C14 core: the state type / recorded versions and compute_fork_version name the same fork
 Agreement == st = ExpectedState(s, e) /\ st = StateAt(s, e)
 
+\* The version selected from the state's Fork record and the version the configuration reports name the same fork:
+\*  - a message of the state's own epoch (in particular of the fork epoch itself) uses compute_fork_version(epoch);
+\*  - a message of the previous epoch does too, unless several forks were activated at once at this epoch (then the
+\*    record's previous_version is an intermediate fork that was never live; the spec accepts that);
+\*  - a message of a future epoch uses the state's current version;
+\*  - exactly at fork.epoch the current version applies, one epoch earlier the previous version.
+DomainAgreement ==
+    /\ DomainVersion(st, e) = ForkIdxAt(s, e)
+    /\ (e > 0 /\ ~MultiForkAt(s, e) => DomainVersion(st, e - 1) = ForkIdxAt(s, e - 1))
+    /\ DomainVersion(st, e + 1) = st.cur
+    /\ DomainVersion(st, st.fepoch) = st.cur
+    /\ (st.fepoch > 0 => DomainVersion(st, st.fepoch - 1) = st.prev)
+
 \* a block signed under version v for a slot of epoch e verifies iff v is the version of the epoch's fork
 ShouldVerify(sch, ep, v) == v = ForkIdxAt(sch, ep)
 
@@ -90,13 +110,21 @@ ShouldVerify(sch, ep, v) == v = ForkIdxAt(sch, ep)
 \* zrnt has no deneb -> electra upgrade, so chains are only advanced under schedules that never activate electra/fulu
 HasState(sch, ep) == sch[5] = FAR /\ sch[6] = FAR /\ ep <= MaxEpoch
 
+\* message epochs at which the version selection of the row's Fork record is replayed: around the state's epoch
+\* and around the recorded fork epoch (fork.epoch - 1, fork.epoch, fork.epoch + 1)
+DomainProbes(x, ep) ==
+    IF ep > MaxEpoch THEN {}
+    ELSE ({ep - 1, ep, ep + 1} \cup {x.fepoch - 1, x.fepoch, x.fepoch + 1}) \cap (0..(MaxEpoch + 1))
+
 Row(sch, ep) ==
     LET k == ForkIdxAt(sch, ep)
         x == ExpectedState(sch, ep) IN
     [sched |-> sch, epoch |-> ep, fork |-> Name(k),
      has_state |-> HasState(sch, ep),
      st_type |-> Name(x.fork), st_prev |-> Name(x.prev), st_cur |-> Name(x.cur), st_epoch |-> x.fepoch,
-     verifies |-> [v \in 1..7 |-> ShouldVerify(sch, ep, v - 1)]]
+     verifies |-> [v \in 1..7 |-> ShouldVerify(sch, ep, v - 1)],
+     domain |-> SetToSeq({[m |-> m, version |-> Name(DomainVersion(x, m)),
+                           config_version |-> Name(ForkIdxAt(sch, m))] : m \in DomainProbes(x, ep)})]
 
 Table == SetToSeq({Row(sch, ep) : sch \in Schedules, ep \in ProbeEpochs})
 
